@@ -279,6 +279,18 @@ Qed.
 Lemma Inv_strengthen (st : Prop) o P s : head_ok (Words s) -> Inv st o P s -> Inv True o P s.
 Proof. intros Hh H. constructor; try apply H. intros _. exact Hh. Qed.
 
+(** whatever the state, Compact leaves a first word that is not all-ones *)
+Lemma compact_loop_head : forall ws off, head_ok (snd (compact_loop off ws)).
+Proof.
+  induction ws as [|w t IH]; intros off; cbn [compact_loop].
+  - intros x t' E. discriminate.
+  - destruct (Z.eqb_spec w allOnes) as [E|E]; [apply IH|].
+    cbn [snd]. intros x t' E'. inversion E'; subst. exact E.
+Qed.
+
+Lemma Compact_head s : head_ok (Words (Compact s)).
+Proof. destruct (Compact_fields s) as [_ ->]. apply compact_loop_head. Qed.
+
 (** ** Set *)
 
 Lemma shiftr6 x : Z.shiftr x 6 = x / 64.
@@ -476,4 +488,16 @@ Proof.
   - apply H.
   - apply (Inv_bits st o P s H).
   - apply (wi_end _ _ _ (inv_w _ _ _ _ H)).
+Qed.
+
+(** a Set into the first stored word runs Compact: the first word is not all-ones afterwards *)
+Lemma Set_head s idx s' : Offset s <= idx < Offset s + 64 -> Set_ s idx = Some s' ->
+  head_ok (Words s').
+Proof.
+  intros Hr E. unfold Set_ in E. destruct (Z.ltb_spec idx (Offset s)); [lia|]. cbv zeta in E.
+  rewrite shiftr6 in E.
+  assert (Hw : (idx - Offset s) / 64 = 0) by (apply Z.div_small; lia).
+  rewrite Hw in E.
+  destruct (updateZ 0 _ _) as [ws'|]; [|discriminate].
+  cbn [Z.eqb] in E. inversion E; subst s'. apply Compact_head.
 Qed.
